@@ -8,8 +8,8 @@ import random
 
 from . import core
 
-NAMES = ['x', 'y', 'z']
-PNAMES = ['callVariable', 'callFunction', 'x']
+NAMES = ['x', 'xy', 'y']          # one name is a prefix of another
+PNAMES = ['callVariable', 'callVariableX', 'x']
 
 
 class TooLong(BaseException):
